@@ -154,7 +154,7 @@ func HangProne(seed uint64) *Case {
 		return ErrorCase(seed)
 	}
 	p := &Profile{Name: "hang-prone", MinSegs: 2, MaxSegs: 14, PoolMin: 2, PoolMax: 10,
-		WAlu: 4, WLoad: 3, WStore: 3, WFwdBranch: 3, WLoop: 1, WJumpOver: 2, WCall: 1, WDivRem: 1, WNop: 1, WPair: 2,
+		WAlu: 4, WLoad: 3, WStore: 3, WFwdBranch: 3, WLoop: 1, WJumpOver: 2, WCall: 2, WDivRem: 1, WNop: 1, WPair: 2,
 		AddrRegsMax: 2, SubWord: r.Bool(), LoopMaxIter: 4, ShadowDanger: r.Bool(), UseRa: r.Chance(1, 4),
 		WEndRet: 1, WEndFall: 2, WEndJump: 1, MemSizes: []int{256, 1024, 4096}}
 	return Generate(seed, p)
